@@ -4,6 +4,7 @@
 //   - gRPC: the real grpc.Server (interceptors as installed by NewGRpcServer) served on an in-memory
 //     listener whose connections report an arbitrary TCP remote address; unary and streaming calls;
 //   - ethrpc: the httpServer's ServeHTTP with arbitrary RemoteAddr.
+//
 // One op line per request; the implementation's answer is the first gate that stopped the request
 // (ip | auth | func | ok). The property predicate (C39) is evaluated independently from the
 // configuration: a probe method that RAN for a non-loopback client must be allowed by the spec.
@@ -32,6 +33,7 @@ import (
 	"github.com/33cn/chain33/types"
 	"google.golang.org/grpc"
 	"google.golang.org/grpc/credentials/insecure"
+	"google.golang.org/grpc/metadata"
 	"google.golang.org/grpc/test/bufconn"
 
 	"verifharness/internal/gen"
@@ -48,10 +50,26 @@ var ran atomic.Value // string: last probe method that ran
 
 func mark(n string) { ran.Store(n) }
 
-func (p *Probe) Ping(in *types.ReqNil, result *interface{}) error       { mark("Ping"); *result = "pong"; return nil }
-func (p *Probe) Secret(in *types.ReqNil, result *interface{}) error     { mark("Secret"); *result = "s"; return nil }
-func (p *Probe) CloseQueue(in *types.ReqNil, result *interface{}) error { mark("CloseQueue"); *result = "c"; return nil }
-func (p *Probe) Version(in *types.ReqNil, result *interface{}) error    { mark("Version"); *result = "v"; return nil }
+func (p *Probe) Ping(in *types.ReqNil, result *interface{}) error {
+	mark("Ping")
+	*result = "pong"
+	return nil
+}
+func (p *Probe) Secret(in *types.ReqNil, result *interface{}) error {
+	mark("Secret")
+	*result = "s"
+	return nil
+}
+func (p *Probe) CloseQueue(in *types.ReqNil, result *interface{}) error {
+	mark("CloseQueue")
+	*result = "c"
+	return nil
+}
+func (p *Probe) Version(in *types.ReqNil, result *interface{}) error {
+	mark("Version")
+	*result = "v"
+	return nil
+}
 
 // ---------------------------------------------------------------- addresses
 
@@ -138,11 +156,22 @@ func has(l []string, s string) bool {
 }
 
 // spec side (from the property text, independent of the code's derived maps)
-func (c cfgT) wildcard() bool {
-	return (len(c.whitelist) == 1 && c.whitelist[0] == "*") || (len(c.whitlist) == 1 && c.whitlist[0] == "*") ||
-		has(c.whitelist, "0.0.0.0") || has(c.whitlist, "0.0.0.0")
+// the documented wildcard: "*" as the only entry of a key
+func (c cfgT) starWildcard() bool {
+	return (len(c.whitelist) == 1 && c.whitelist[0] == "*") || (len(c.whitlist) == 1 && c.whitlist[0] == "*")
 }
-func (c cfgT) onWhitelist(i ipT) bool { return has(c.whitelist, i.entry()) || has(c.whitlist, i.entry()) }
+
+// named assumption zero-entry-is-wildcard: an entry "0.0.0.0" anywhere in a list admits every address
+func (c cfgT) zeroEntry() bool { return has(c.whitelist, "0.0.0.0") || has(c.whitlist, "0.0.0.0") }
+
+func (c cfgT) wildcard() bool { return c.starWildcard() || c.zeroEntry() }
+
+func (c cfgT) authOK(cr cred) bool {
+	return (c.user == "" && c.pass == "") || (cr.present && cr.raw == "" && cr.u == c.user && cr.p == c.pass)
+}
+func (c cfgT) onWhitelist(i ipT) bool {
+	return has(c.whitelist, i.entry()) || has(c.whitlist, i.entry())
+}
 func methodOK(wl, bl []string, fn string) bool {
 	w := len(wl) == 0 || has(wl, "*") || has(wl, fn)
 	b := has(bl, fn) || (len(bl) == 0 && fn == "CloseQueue")
@@ -158,6 +187,8 @@ type world struct {
 	gl     *fakeListener
 	cur    cfgT
 	subRan int32
+
+	zeroSampled, reinitSampled bool
 }
 
 type fakeListener struct {
@@ -318,7 +349,8 @@ func bodyShape(r *gen.Rand, m, decoy string) (string, string) {
 	}
 }
 
-func (w *world) jrpc(i ipT, c cred, method, body, shape string) {
+// send one JSON-RPC request through the real handler; returns the first gate that stopped it and the probe that ran
+func (w *world) jrpcSend(i ipT, c cred, body string) (string, string) {
 	ran.Store("")
 	req := httptest.NewRequest("POST", "/", bytes.NewReader([]byte(body)))
 	req.RemoteAddr = i.remoteAddr(40000 + 7)
@@ -349,26 +381,306 @@ func (w *world) jrpc(i ipT, c cred, method, body, shape string) {
 		}
 		return "ok"
 	})
+	m, _ := ran.Load().(string)
+	return res, m
+}
+
+// predicate: whichever probe method ran, it must have been allowed
+func (w *world) jrpcPred(site string, i ipT, c cred, m, body string) {
+	if m == "" {
+		return
+	}
+	out.Stat(site+"_probe_ran", 1)
+	if !w.cur.authOK(c) {
+		out.Pred("C39|"+site+"|ran-without-auth", fmt.Sprintf("%s ip=%s cred=%v method=%s body=%q", w.cur.wire(), i.wire(), c, m, body))
+	}
+	if !i.loopback() {
+		if !(w.cur.onWhitelist(i) || w.cur.wildcard()) {
+			out.Pred("C39|"+site+"|ran-from-unlisted-address", fmt.Sprintf("%s ip=%s method=%s body=%q", w.cur.wire(), i.wire(), m, body))
+		}
+		if !methodOK(w.cur.jWL, w.cur.jBL, m) {
+			out.Pred("C39|"+site+"|ran-disallowed-method", fmt.Sprintf("%s ip=%s method=%s body=%q", w.cur.wire(), i.wire(), m, body))
+		}
+	}
+}
+
+func (w *world) jrpc(i ipT, c cred, method, body, shape string) {
+	res, m := w.jrpcSend(i, c, body)
 	out.Op(fmt.Sprintf("jrpc %s %s %s", i.wire(), c.wire(), hx(method)), res)
 	out.Stat("jrpc_requests", 1)
 	out.Stat("jrpc_shape_"+shape, 1)
 	out.Stat("jrpc_result_"+res, 1)
-	// predicate: whichever probe method ran, it must have been allowed
-	if m, _ := ran.Load().(string); m != "" {
-		out.Stat("jrpc_probe_ran", 1)
-		authOK := (w.cur.user == "" && w.cur.pass == "") || (c.present && c.raw == "" && c.u == w.cur.user && c.p == w.cur.pass)
-		if !authOK {
-			out.Pred("C39|jsonrpc|ran-without-auth", fmt.Sprintf("%s ip=%s cred=%v method=%s body=%q", w.cur.wire(), i.wire(), c, m, body))
-		}
-		if !i.loopback() {
-			if !(w.cur.onWhitelist(i) || w.cur.wildcard()) {
-				out.Pred("C39|jsonrpc|ran-from-unlisted-address", fmt.Sprintf("%s ip=%s method=%s body=%q", w.cur.wire(), i.wire(), m, body))
+	w.jrpcPred("jsonrpc", i, c, m, body)
+}
+
+// ---------------------------------------------------------------- JSON-RPC bodies as member lists
+//
+// The body is generated as the ordered member list of the top-level object (keys and string values unquoted,
+// values classified the way the Lean model classifies them), rendered to JSON text with free choices the model
+// does not see (whitespace, escapes, which concrete array / "other" literal), and sent through the real
+// middleware. The model decodes the same member list into clientRequest (gate) and serverRequest (codec).
+
+type jval struct {
+	kind string // s n u a x
+	s    string // string value / decimal digits of u
+}
+
+type member struct {
+	key string
+	v   jval
+}
+
+type bodyT struct {
+	top string // obj | null | other
+	ms  []member
+}
+
+func (v jval) wire() string {
+	switch v.kind {
+	case "s":
+		return "s" + hex.EncodeToString([]byte(v.s))
+	case "u":
+		return "u" + v.s
+	}
+	return v.kind
+}
+
+func (b bodyT) wire() string {
+	if b.top != "obj" {
+		return b.top
+	}
+	p := []string{"o"}
+	for _, m := range b.ms {
+		p = append(p, hex.EncodeToString([]byte(m.key))+"="+m.v.wire())
+	}
+	return strings.Join(p, ";")
+}
+
+var arrTexts = []string{`[{}]`, `[]`, `[null]`, `[{},1,2]`, `[ { } ]`, `[{"method":"Probe.Secret"}]`}
+var otherTexts = []string{`{"method":"Probe.Secret"}`, `true`, `false`, `-1`, `1.5`, `1e2`, `{}`}
+var otherTops = []string{`[{"method":"Probe.Ping","params":[{}],"id":1}]`, `"Probe.Ping"`, `5`, `true`}
+
+func jsonKey(r *gen.Rand, k string) string {
+	if r != nil && r.Chance(1, 6) {
+		// escape one rune of the key: the decoder unquotes keys before matching them
+		rs := []rune(k)
+		if len(rs) > 0 {
+			j := r.Intn(len(rs))
+			var b strings.Builder
+			b.WriteByte('"')
+			for x, c := range rs {
+				if x == j || c == '"' || c == '\\' || c < 0x20 {
+					fmt.Fprintf(&b, "\\u%04x", c)
+				} else {
+					b.WriteRune(c)
+				}
 			}
-			if !methodOK(w.cur.jWL, w.cur.jBL, m) {
-				out.Pred("C39|jsonrpc|ran-disallowed-method", fmt.Sprintf("%s ip=%s method=%s body=%q", w.cur.wire(), i.wire(), m, body))
-			}
+			b.WriteByte('"')
+			return b.String()
 		}
 	}
+	return jsonStr(k, false)
+}
+
+func pickStr(r *gen.Rand, l []string) string {
+	if r == nil {
+		return l[0]
+	}
+	return l[r.Intn(len(l))]
+}
+
+func (b bodyT) render(r *gen.Rand) string {
+	switch b.top {
+	case "null":
+		return "null"
+	case "other":
+		return pickStr(r, otherTops)
+	}
+	sp := func() string {
+		if r != nil && r.Chance(1, 8) {
+			return pickStr(r, []string{" ", "\n", "\t ", "  "})
+		}
+		return ""
+	}
+	var sb strings.Builder
+	sb.WriteString(sp() + "{")
+	for k, m := range b.ms {
+		if k > 0 {
+			sb.WriteString("," + sp())
+		}
+		sb.WriteString(jsonKey(r, m.key) + sp() + ":" + sp())
+		switch m.v.kind {
+		case "s":
+			sb.WriteString(jsonStr(m.v.s, r != nil && r.Chance(1, 10)))
+		case "n":
+			sb.WriteString("null")
+		case "u":
+			sb.WriteString(m.v.s)
+		case "a":
+			sb.WriteString(pickStr(r, arrTexts))
+		default:
+			sb.WriteString(pickStr(r, otherTexts))
+		}
+	}
+	sb.WriteString("}" + sp())
+	return sb.String()
+}
+
+func parseBody(s string) (bodyT, bool) {
+	if s == "null" || s == "other" {
+		return bodyT{top: s}, true
+	}
+	p := strings.Split(s, ";")
+	if p[0] != "o" {
+		return bodyT{}, false
+	}
+	b := bodyT{top: "obj"}
+	for _, m := range p[1:] {
+		kv := strings.SplitN(m, "=", 2)
+		if len(kv) != 2 || kv[1] == "" {
+			return b, false
+		}
+		k, err := hex.DecodeString(kv[0])
+		if err != nil {
+			return b, false
+		}
+		v := jval{kind: kv[1][:1]}
+		switch v.kind {
+		case "s":
+			x, err := hex.DecodeString(kv[1][1:])
+			if err != nil {
+				return b, false
+			}
+			v.s = string(x)
+		case "u":
+			v.s = kv[1][1:]
+		case "n", "a", "x":
+		default:
+			return b, false
+		}
+		b.ms = append(b.ms, member{string(k), v})
+	}
+	return b, true
+}
+
+// key spellings: exact, case variants, the two non-ASCII runes whose fold class contains an ASCII letter
+// (U+017F long s folds to S: "param\u017f" IS the params field), and near misses that match no field
+var methodKeys = []string{"method", "method", "Method", "METHOD", "mEthod", "methoD", "methods", "metho", "m\u0435thod" /* Cyrillic e: no match */}
+var paramsKeys = []string{"params", "params", "Params", "PARAMS", "param\u017f", "PARAM\u017f", "parms"}
+var idKeys = []string{"id", "id", "ID", "Id", "iD", "\u0131d" /* dotless i: no match */, "i d"}
+var extraKeys = []string{"jsonrpc", "extra", "", "Method ", "\u212aey" /* Kelvin sign */}
+
+func genValue(r *gen.Rand, field string, methods []string) jval {
+	str := func() jval { return jval{"s", methods[r.Intn(len(methods))]} }
+	small := func() jval { return jval{"u", fmt.Sprint(r.Intn(100))} }
+	switch field {
+	case "method":
+		switch r.Pick(34, 3, 1, 1, 1) {
+		case 0:
+			return str()
+		case 1:
+			return jval{kind: "n"}
+		case 2:
+			return small()
+		case 3:
+			return jval{kind: "a"}
+		}
+		return jval{kind: "x"}
+	case "params":
+		switch r.Pick(30, 4, 1, 1, 1) {
+		case 0:
+			return jval{kind: "a"}
+		case 1:
+			return jval{kind: "n"}
+		case 2:
+			return jval{kind: "x"}
+		case 3:
+			return str()
+		}
+		return small()
+	case "id":
+		switch r.Pick(28, 3, 2, 1, 1, 1) {
+		case 0:
+			return small()
+		case 1:
+			return jval{kind: "n"}
+		case 2:
+			return jval{"u", pickStr(r, []string{"18446744073709551615", "18446744073709551616", "99999999999999999999999"})}
+		case 3:
+			return str()
+		case 4:
+			return jval{kind: "x"}
+		}
+		return jval{kind: "a"}
+	}
+	switch r.Intn(5) {
+	case 0:
+		return str()
+	case 1:
+		return jval{kind: "x"}
+	case 2:
+		return jval{kind: "a"}
+	case 3:
+		return jval{kind: "n"}
+	}
+	return small()
+}
+
+func genBody(r *gen.Rand, c cfgT) bodyT {
+	switch r.Pick(40, 1, 1) {
+	case 1:
+		return bodyT{top: "null"}
+	case 2:
+		return bodyT{top: "other"}
+	}
+	// method strings: every probe (allowed or not), a spelling variant, an allowed decoy
+	methods := []string{"Probe.Ping", "Probe.Secret", "Probe.CloseQueue", "Probe.Version", genMethod(r), allowedDecoy(r, c), ""}
+	b := bodyT{top: "obj"}
+	add := func(keys []string, field string, n int) {
+		for k := 0; k < n; k++ {
+			b.ms = append(b.ms, member{keys[r.Intn(len(keys))], genValue(r, field, methods)})
+		}
+	}
+	add(methodKeys, "method", 1+r.Pick(3, 4, 2))
+	add(paramsKeys, "params", r.Pick(1, 8, 2))
+	add(idKeys, "id", r.Pick(2, 8, 1))
+	add(extraKeys, "extra", r.Pick(4, 1))
+	sh := make([]member, len(b.ms))
+	for x, y := range r.Perm(len(b.ms)) {
+		sh[x] = b.ms[y]
+	}
+	b.ms = sh
+	return b
+}
+
+func (w *world) jbody(i ipT, c cred, b bodyT, text string) {
+	res, m := w.jrpcSend(i, c, text)
+	o := res
+	if res == "ok" {
+		if m == "" {
+			o = "ok:-"
+		} else {
+			o = "ok:" + m
+		}
+	}
+	out.Op(fmt.Sprintf("jbody %s %s %s", i.wire(), c.wire(), b.wire()), o)
+	out.Stat("jbody_requests", 1)
+	out.Stat("jbody_result_"+res, 1)
+	if b.top == "obj" {
+		keys := map[string]int{}
+		for _, mm := range b.ms {
+			if strings.EqualFold(mm.key, "method") {
+				keys[mm.key]++
+			}
+		}
+		if len(keys) > 1 {
+			out.Stat("jbody_method_under_several_spellings", 1)
+		}
+		if keys["method"] > 1 {
+			out.Stat("jbody_duplicate_exact_method_key", 1)
+		}
+	}
+	w.jrpcPred("jsonrpc-body", i, c, m, text)
 }
 
 // ---------------------------------------------------------------- gRPC
@@ -402,15 +714,38 @@ func classifyGrpcErr(err error) string {
 	return "ok" // reached the handler (which may itself fail, e.g. unknown method / backend error)
 }
 
-func (w *world) grpcUnary(i ipT, fn string) {
+// basic-auth credentials as gRPC request metadata (what a client wrapping the JSON-RPC convention would send)
+func withCred(ctx context.Context, c cred) context.Context {
+	if !c.present {
+		return ctx
+	}
+	v := c.raw
+	if v == "" {
+		v = "Basic " + base64.StdEncoding.EncodeToString([]byte(c.u+":"+c.p))
+	}
+	return metadata.AppendToOutgoingContext(ctx, "authorization", v)
+}
+
+// property clause "basic authentication succeeds when configured", read for gRPC
+func (w *world) grpcAuthPred(site string, i ipT, c cred, fn string) {
+	if !w.cur.authOK(c) {
+		out.Pred("C39|"+site+"|ran-without-basic-auth", fmt.Sprintf("%s ip=%s cred=%s method=%s", w.cur.wire(), i.wire(), c.wire(), fn))
+	}
+}
+
+func (w *world) grpcUnary(i ipT, fn string, c cred) {
 	full := "/types.chain33/" + fn
+	opl := fmt.Sprintf("grpc %s %s", i.wire(), hx(full))
+	if c.present {
+		opl = fmt.Sprintf("grpca %s %s %s", i.wire(), c.wire(), hx(full))
+	}
 	conn, err := w.dial(i)
 	if err != nil {
-		out.Op(fmt.Sprintf("grpc %s %s", i.wire(), hx(full)), "dial-error")
+		out.Op(opl, "dial-error")
 		return
 	}
 	defer conn.Close()
-	ctx, cancel := context.WithTimeout(context.Background(), 5*time.Second)
+	ctx, cancel := context.WithTimeout(withCred(context.Background(), c), 5*time.Second)
 	defer cancel()
 	var reply types.VersionInfo
 	err = conn.Invoke(ctx, full, &types.ReqNil{}, &reply)
@@ -420,9 +755,15 @@ func (w *world) grpcUnary(i ipT, fn string) {
 		// grpc-go answers unknown methods before interceptors: not a registered method, nothing ran
 		res = "unknown"
 	}
-	out.Op(fmt.Sprintf("grpc %s %s", i.wire(), hx(full)), res)
+	out.Op(opl, res)
 	out.Stat("grpc_unary_requests", 1)
 	out.Stat("grpc_unary_result_"+res, 1)
+	if c.present {
+		out.Stat("grpc_unary_with_credentials", 1)
+	}
+	if res == "ok" {
+		w.grpcAuthPred("grpc-unary", i, c, fn)
+	}
 	if res == "ok" && !i.loopback() {
 		if !(w.cur.onWhitelist(i) || w.cur.wildcard()) {
 			out.Pred("C39|grpc-unary|ran-from-unlisted-address", fmt.Sprintf("%s ip=%s method=%s", w.cur.wire(), i.wire(), fn))
@@ -460,6 +801,9 @@ func (w *world) grpcStream(i ipT) {
 	out.Op(fmt.Sprintf("grpcs %s %s", i.wire(), hx(full)), res)
 	out.Stat("grpc_stream_requests", 1)
 	out.Stat("grpc_stream_result_"+res, 1)
+	if ranIt {
+		w.grpcAuthPred("grpc-stream-SubEvent", i, cred{}, "SubEvent")
+	}
 	if ranIt && !i.loopback() {
 		if !(w.cur.onWhitelist(i) || w.cur.wildcard()) {
 			out.Pred("C39|grpc-stream-SubEvent|ran-from-unlisted-address", fmt.Sprintf("%s ip=%s", w.cur.wire(), i.wire()))
@@ -505,6 +849,13 @@ func (w *world) eth(i ipT) {
 		}
 		out.Pred("C39|ethrpc.checkIPWhitelist|"+key+"|"+kind, fmt.Sprintf("%s ip=%s eth=%s main=%s", w.cur.wire(), i.wire(), res, main))
 	}
+	if main == "1" && !i.loopback() && !w.cur.onWhitelist(i) && !w.cur.starWildcard() && w.cur.zeroEntry() {
+		// named assumption zero-entry-is-wildcard at work: neither listed nor "*"
+		if out.Stat("admitted_only_via_0.0.0.0_entry", 1); !w.zeroSampled {
+			w.zeroSampled = true
+			out.Sample(fmt.Sprintf("assumption zero-entry-is-wildcard: %s admits %s (eth=%s)", w.cur.wire(), i.wire(), res))
+		}
+	}
 	// the main endpoints themselves: admitted non-loopback address must be listed
 	if main == "1" && !i.loopback() && !(w.cur.onWhitelist(i) || w.cur.wildcard()) {
 		out.Pred("C39|checkIPWhitelist|admits-unlisted-address", fmt.Sprintf("%s ip=%s", w.cur.wire(), i.wire()))
@@ -512,6 +863,47 @@ func (w *world) eth(i ipT) {
 	if res == "1" && !i.loopback() && (len(w.cur.whitelist) > 0 || len(w.cur.whitlist) > 0) && !(w.cur.onWhitelist(i) || w.cur.wildcard()) && main == "1" {
 		out.Pred("C39|ethrpc.checkIPWhitelist|admits-unlisted-address", fmt.Sprintf("%s ip=%s", w.cur.wire(), i.wire()))
 	}
+}
+
+// a second InitIPWhitelist on the same process: the package map is only ever added to (never cleared), so the
+// addresses admitted afterwards are those of either configuration. The map is reset to the current
+// configuration afterwards.
+func (w *world) reinit(wl, wl2 []string, probes []ipT) {
+	rpc.InitIPWhitelist(&types.RPC{Whitelist: wl, Whitlist: wl2})
+	out.Op(fmt.Sprintf("ipadd %s %s", hxList(wl), hxList(wl2)), "ok")
+	out.Stat("reinit_sequences", 1)
+	second := cfgT{whitelist: wl, whitlist: wl2}
+	for _, i := range probes {
+		res := "0"
+		if rpc.CheckIPWhitelist(i.host()) {
+			res = "1"
+		}
+		out.Op("ipmain2 "+i.wire(), res)
+		if res == "1" && !i.loopback() {
+			covered1 := w.cur.onWhitelist(i) || w.cur.wildcard()
+			covered2 := second.onWhitelist(i) || second.wildcard()
+			if !covered1 && !covered2 {
+				out.Pred("C39|checkIPWhitelist|reinit-admits-address-of-neither-config", fmt.Sprintf("%s then %s %s ip=%s", w.cur.wire(), hxList(wl), hxList(wl2), i.wire()))
+			}
+			if !covered2 {
+				// assumption "a node calls rpc.InitCfg once" at work: admitted by the earlier configuration only
+				if out.Stat("reinit_admitted_by_earlier_config_only", 1); !w.reinitSampled {
+					w.reinitSampled = true
+					out.Sample(fmt.Sprintf("assumption InitCfg-once: after %s then ipadd %s %s address %s is still admitted", w.cur.wire(), hxList(wl), hxList(wl2), i.wire()))
+				}
+			}
+		}
+	}
+	rpc.VerifResetACL()
+	rpc.InitCfg(w.rcfg)
+}
+
+func (w *world) reinitProbe(i ipT) {
+	res := "0"
+	if rpc.CheckIPWhitelist(i.host()) {
+		res = "1"
+	}
+	out.Op("ipmain2 "+i.wire(), res)
 }
 
 // ---------------------------------------------------------------- generators
@@ -719,17 +1111,43 @@ func main() {
 			body, shape := bodyShape(r, m, allowedDecoy(r, c))
 			w.jrpc(i, genCred(r, c), m, body, shape)
 		}
+		for q := 0; q < 8; q++ {
+			i := genIP(r, pool)
+			b := genBody(r, c)
+			w.jbody(i, genCred(r, c), b, b.render(r))
+		}
 		for q := 0; q < 4; q++ {
-			w.grpcUnary(genIP(r, pool), gfuncs[r.Intn(len(gfuncs))])
+			cr := cred{}
+			if r.Chance(1, 3) {
+				cr = genCred(r, c)
+			}
+			w.grpcUnary(genIP(r, pool), gfuncs[r.Intn(len(gfuncs))], cr)
 		}
 		w.grpcStream(genIP(r, pool))
 		for q := 0; q < 6; q++ {
 			w.eth(genIP(r, pool))
 		}
+		if r.Chance(1, 4) {
+			probes := []ipT{pool[0], pool[len(pool)-1], genIP(r, pool), genIP(r, pool)}
+			w.reinit(genIPList(r, pool), genIPList(r, pool), probes)
+		}
 		if k == 0 {
 			out.Sample(c.wire() + " ; pool=" + fmt.Sprint(pool))
 		}
 	}
+}
+
+// the `ipmain2 <ip>` lines that directly follow an `ipadd` line
+func pendingProbes(rest []string) []string {
+	var p []string
+	for _, l := range rest {
+		f := strings.Fields(l)
+		if len(f) != 2 || f[0] != "ipmain2" {
+			break
+		}
+		p = append(p, f[1])
+	}
+	return p
 }
 
 // replay: op lines of the wire grammar (cfg / jrpc / grpc / grpcs / eth / ipmain); bodies use the plain shape.
@@ -768,12 +1186,18 @@ func replay() {
 		}
 		return i, false
 	}
-	for _, l := range gen.ReplayLines() {
+	lines := gen.ReplayLines()
+	skip := 0
+	for li, l := range lines {
+		if skip > 0 { // `ipmain2` lines already emitted by the `ipadd` they follow
+			skip--
+			continue
+		}
 		f := strings.Fields(l)
 		switch {
 		case len(f) == 9 && f[0] == "cfg":
 			w.setCfg(cfgT{unlist(f[1]), unlist(f[2]), unlist(f[3]), unlist(f[4]), unlist(f[5]), unlist(f[6]), unhex(f[7]), unhex(f[8])})
-		case len(f) == 4 && f[0] == "jrpc":
+		case len(f) == 4 && (f[0] == "jrpc" || f[0] == "jbody" || f[0] == "grpca"):
 			i, ok := parseIP(f[1])
 			if !ok {
 				out.Op(l, "bad-op")
@@ -792,8 +1216,35 @@ func replay() {
 					}
 				}
 			}
+			if f[0] == "jbody" {
+				b, ok := parseBody(f[3])
+				if !ok {
+					out.Op(l, "bad-op")
+					continue
+				}
+				w.jbody(i, c, b, b.render(nil))
+				continue
+			}
+			if f[0] == "grpca" {
+				full := unhex(f[3])
+				if !c.present {
+					out.Op(l, "bad-op") // `grpca` carries credentials; without them the op is `grpc`
+					continue
+				}
+				w.grpcUnary(i, full[strings.LastIndex(full, "/")+1:], c)
+				continue
+			}
 			m := unhex(f[3])
 			w.jrpc(i, c, m, fmt.Sprintf(`{"method":%s,"params":[{}],"id":1}`, jsonStr(m, false)), "plain")
+		case len(f) == 3 && f[0] == "ipadd":
+			var probes []ipT
+			for _, l2 := range pendingProbes(lines[li+1:]) {
+				if i, ok := parseIP(l2); ok {
+					probes = append(probes, i)
+				}
+			}
+			w.reinit(unlist(f[1]), unlist(f[2]), probes)
+			skip = len(probes)
 		case len(f) == 3 && (f[0] == "grpc" || f[0] == "grpcs"):
 			i, ok := parseIP(f[1])
 			if !ok {
@@ -804,7 +1255,7 @@ func replay() {
 				w.grpcStream(i)
 			} else {
 				full := unhex(f[2])
-				w.grpcUnary(i, full[strings.LastIndex(full, "/")+1:])
+				w.grpcUnary(i, full[strings.LastIndex(full, "/")+1:], cred{})
 			}
 		case len(f) == 2 && (f[0] == "eth" || f[0] == "ipmain"):
 			i, ok := parseIP(f[1])
@@ -815,6 +1266,13 @@ func replay() {
 			if f[0] == "eth" {
 				w.eth(i)
 			}
+		case len(f) == 2 && f[0] == "ipmain2": // not preceded by `ipadd`: the map is the current configuration's
+			i, ok := parseIP(f[1])
+			if !ok {
+				out.Op(l, "bad-op")
+				continue
+			}
+			w.reinitProbe(i)
 		default:
 			out.Op(l, "bad-op")
 		}
